@@ -507,11 +507,28 @@ struct Iso {
     timeout: bool,
 }
 
+fn process_cpu_ns() -> u64 {
+    let mut ts = libc::timespec { tv_sec: 0, tv_nsec: 0 };
+    unsafe {
+        libc::clock_gettime(libc::CLOCK_PROCESS_CPUTIME_ID, &mut ts);
+    }
+    ts.tv_sec as u64 * 1_000_000_000 + ts.tv_nsec as u64
+}
+
 fn isolated(src: String, max_steps: u64, depth_budget: usize, wall: u64) -> Iso {
+    isolated_with(src, max_steps, depth_budget, wall, 0)
+}
+
+/// `cpu_rule_secs` > 0: a step that has not returned, has executed (almost) no VM instruction
+/// and has consumed that many seconds of the child's own CPU time is spinning in native code.
+/// CPU time is the child's consumption, not a wall-clock deadline: machine load does not move
+/// it. Used for the non-terminating programs only, whose steps are single VM instructions.
+fn isolated_with(src: String, max_steps: u64, depth_budget: usize, wall: u64, cpu_rule_secs: u64) -> Iso {
     let lim = Limits { wall: std::time::Duration::from_secs(wall), address_space: 4 << 30, stack: 0 };
     let exit = isolate::run(&lim, move || {
         // watchdog on the instruction counter: a step that executed > 5e7 instructions and did not return
-        std::thread::spawn(|| {
+        std::thread::spawn(move || {
+            let mut seen: (u64, u64) = (u64::MAX, 0);
             loop {
                 std::thread::sleep(std::time::Duration::from_millis(5));
                 let base = STEP_BASE.load(Ordering::Relaxed);
@@ -520,6 +537,15 @@ fn isolated(src: String, max_steps: u64, depth_budget: usize, wall: u64) -> Iso 
                     if now.saturating_sub(base) > 50_000_000 {
                         isolate::emit(&format!("\u{4}WATCHDOG {}", now - base));
                         isolate::child_exit(3);
+                    }
+                    if cpu_rule_secs > 0 {
+                        let cpu = process_cpu_ns();
+                        if seen.0 != base {
+                            seen = (base, cpu);
+                        } else if cpu.saturating_sub(seen.1) > cpu_rule_secs * 1_000_000_000 {
+                            isolate::emit(&format!("\u{4}WATCHDOG {} (and {} s of CPU time)", now - base, cpu_rule_secs));
+                            isolate::child_exit(3);
+                        }
                     }
                 }
             }
@@ -710,7 +736,7 @@ fn judge_endless(r: &mut UnitResult, i: usize) {
     let (name, src) = ENDLESS[i];
     let case = json!({"kind": "endless", "name": name});
     r.evaluations += 1;
-    let iso = isolated(src.to_string(), 400_000, HOST_DEPTH_BUDGET, 120);
+    let iso = isolated_with(src.to_string(), 400_000, HOST_DEPTH_BUDGET, 120, 20);
     if iso.timeout {
         r.inconclusive += 1;
         return;
